@@ -42,6 +42,14 @@ package definition
 //@   loop 2 invariant [seen] forall t string, i :: $seen1[t] && t != taskName && 0 <= i && i < len(d.Tasks[t].DependsOn) ==> (d.Tasks[t].DependsOn[i] in d.Tasks)
 //@   loop 2 invariant [cur] (taskName in d.Tasks) && extEq(taskDef.DependsOn, d.Tasks[taskName].DependsOn) && taskDef.DependsOn == d.Tasks[taskName].DependsOn && 0 <= $i + 1 && $i + 1 <= len(taskDef.DependsOn) && forall i :: 0 <= i && i <= $i ==> (d.Tasks[taskName].DependsOn[i] in d.Tasks)
 
+//@ pure validDef(d PipelineDef) bool = d.Concurrency >= 1 && (d.QueueLimit == nil || *d.QueueLimit >= 0) && d.StartDelay >= 0 && !(d.StartDelay > 0 && d.QueueLimit != nil && *d.QueueLimit == 0) && depsOK(d)
+//@ func (*PipelinesDef).Validate
+//@   safety
+//@   requires [nonnil] d != nil
+//@   ensures [C17.allValid] res == nil <==> forall p string :: (p in d.Pipelines) ==> validDef(d.Pipelines[p])
+//@   modifies nothing
+//@   loop 1 invariant [seen] forall p string :: $seen[p] ==> validDef(d.Pipelines[p])
+
 //@ func (PipelineDef).Equals
 //@   safety
 //@   ensures [C17.eq] res <==> extEq(d, otherDef)
